@@ -464,6 +464,57 @@ async fn probe(client: &mut DuplexStream, id: u16) -> bool {
     frames.len() == 1 && frames[0].len() >= 2 && frames[0][0] == (id >> 8) as u8 && frames[0][1] == id as u8
 }
 
+/// the accept errors a listener can report for one connection attempt (index = the kind in the case line)
+fn accept_error(kind: usize) -> io::Error {
+    match kind % 12 {
+        0 => io::ErrorKind::ConnectionAborted.into(),   // ECONNABORTED: reset while in the accept queue
+        1 => io::Error::from_raw_os_error(24),          // EMFILE
+        2 => io::Error::from_raw_os_error(23),          // ENFILE
+        3 => io::ErrorKind::ConnectionReset.into(),
+        4 => io::Error::from_raw_os_error(100),         // ENETDOWN
+        5 => io::Error::from_raw_os_error(71),          // EPROTO
+        6 => io::Error::from_raw_os_error(113),         // EHOSTUNREACH
+        7 => io::ErrorKind::PermissionDenied.into(),    // firewall (EPERM)
+        8 => io::ErrorKind::OutOfMemory.into(),         // ENOBUFS / ENOMEM
+        9 => io::ErrorKind::Interrupted.into(),
+        10 => io::ErrorKind::TimedOut.into(),
+        _ => io::Error::new(io::ErrorKind::Other, "TLS handshake failed"),
+    }
+}
+
+/// T2 + oracle: accept errors and failing stream futures in between connections;
+/// every connection must be served, whatever went wrong for other attempts
+async fn run_accept_cases(recs: &mut Vec<Rec>, cases: Vec<Vec<Option<Option<usize>>>>, idx: &mut u64, only: Option<u64>) {
+    for evs in cases {
+        *idx += 1;
+        if only.map_or(false, |o| o != *idx) { continue; }
+        let line = format!("accept {}", evs.iter().map(|e| match e { None => "c".to_string(), Some(None) => "f".to_string(), Some(Some(k)) => format!("e{}", k) }).collect::<Vec<_>>().join(","));
+        let srv = stream_server_with(30_000, None);
+        PANICKED.store(false, Ordering::SeqCst);
+        let mut obs = String::new();
+        let mut clients = vec![];
+        for (j, e) in evs.iter().enumerate() {
+            match e {
+                None => {
+                    let mut c = srv.listener.connect(9000 + j as u16);
+                    settle(1).await;
+                    let served = probe(&mut c, 0x6400 + j as u16).await;
+                    obs.push(if served { 's' } else { '-' });
+                    chk(recs, served, "accept_error_stops_server", &line, format!("connection #{} was not served", j));
+                    clients.push(c);
+                }
+                Some(None) => { srv.listener.push(AcceptEv::StreamFails("192.0.2.9:9999".parse().unwrap())); settle(1).await; obs.push('-'); }
+                Some(Some(k)) => { srv.listener.push(AcceptEv::Error(accept_error(*k))); settle(1).await; obs.push('-'); }
+            }
+        }
+        recs.push(Rec::Case(line.clone(), obs, "accept"));
+        chk(recs, !srv.handle.is_finished() && !PANICKED.load(Ordering::SeqCst), "accept_error_stops_server", &line, "the server task ended or panicked".into());
+        drop(clients);
+        drop(srv);
+        settle(1).await;
+    }
+}
+
 /// T2 + oracle (virtual time): idle timeout of a connection; connection limit of the server
 async fn run_idle_limit(recs: &mut Vec<Rec>, idle_cases: Vec<(u64, u64)>, limit_cases: Vec<(usize, usize)>, idx: &mut u64, only: Option<u64>) {
     let mut port = 8000u16;
@@ -763,15 +814,20 @@ impl AsyncDgramSock for MockSock {
     }
 }
 
+/// what the listener's poll_accept() yields next
+enum AcceptEv { Conn(DuplexStream, SocketAddr), Error(io::Error), StreamFails(SocketAddr) }
 #[derive(Default)]
-struct MockListener { q: Mutex<VecDeque<(DuplexStream, SocketAddr)>>, waker: Mutex<Option<std::task::Waker>> }
+struct MockListener { q: Mutex<VecDeque<AcceptEv>>, waker: Mutex<Option<std::task::Waker>> }
 impl MockListener {
     fn connect(&self, port: u16) -> DuplexStream { self.connect_buf(port, 1 << 20) }
     fn connect_buf(&self, port: u16, buf: usize) -> DuplexStream {
         let (client, server) = tokio::io::duplex(buf);
-        self.q.lock().unwrap().push_back((server, format!("192.0.2.9:{}", port).parse().unwrap()));
-        if let Some(w) = self.waker.lock().unwrap().take() { w.wake(); }
+        self.push(AcceptEv::Conn(server, format!("192.0.2.9:{}", port).parse().unwrap()));
         client
+    }
+    fn push(&self, ev: AcceptEv) {
+        self.q.lock().unwrap().push_back(ev);
+        if let Some(w) = self.waker.lock().unwrap().take() { w.wake(); }
     }
 }
 impl AsyncAccept for MockListener {
@@ -780,7 +836,9 @@ impl AsyncAccept for MockListener {
     type Future = std::future::Ready<Result<DuplexStream, io::Error>>;
     fn poll_accept(&self, cx: &mut Context<'_>) -> Poll<io::Result<(Self::Future, SocketAddr)>> {
         match self.q.lock().unwrap().pop_front() {
-            Some((s, a)) => Poll::Ready(Ok((std::future::ready(Ok(s)), a))),
+            Some(AcceptEv::Conn(s, a)) => Poll::Ready(Ok((std::future::ready(Ok(s)), a))),
+            Some(AcceptEv::Error(e)) => Poll::Ready(Err(e)),
+            Some(AcceptEv::StreamFails(a)) => Poll::Ready(Ok((std::future::ready(Err(io::Error::new(io::ErrorKind::InvalidData, "handshake failed"))), a))),
             None => { *self.waker.lock().unwrap() = Some(cx.waker().clone()); Poll::Pending }
         }
     }
@@ -1112,6 +1170,14 @@ fn main() {
     }
     let mut limit_cases: Vec<(usize, usize)> = vec![(1, 3), (2, 2), (2, 3), (3, 5)];
     for _ in 0..(if a.thorough { 60 } else { 10 } * scale) { let m = r.range(1, 6) as usize; limit_cases.push((m, (m as i64 + r.below(5) as i64 - 1).max(1) as usize)); }
+    let mut accept_cases: Vec<Vec<Option<Option<usize>>>> = vec![
+        vec![None, Some(Some(0)), None, None],                      // served, ECONNABORTED, served, served
+        vec![Some(Some(1)), None], vec![Some(None), None], vec![None, Some(Some(11)), Some(None), Some(Some(2)), None]];
+    for k in 0..12 { accept_cases.push(vec![None, Some(Some(k)), None]); }
+    for _ in 0..(if a.thorough { 300 } else { 40 } * scale) {
+        let n = r.range(2, 7) as usize;
+        accept_cases.push((0..n).map(|_| match r.below(5) { 0 | 1 => None, 2 => Some(None), _ => Some(Some(r.below(12) as usize)) }).collect());
+    }
     let n_tcp = if a.thorough { 6_000 } else { 800 } * scale;
     let mut tcp_cases: Vec<SrvCase> = vec![];
     {
@@ -1159,6 +1225,7 @@ fn main() {
         }};
     }
     phase!("srv cases", recs => run_srv_cases(&mut recs, srv_cases, &mut idx, only));
+    phase!("accept cases", recs => run_accept_cases(&mut recs, accept_cases, &mut idx, only));
     phase!("idle and limit cases", recs => run_idle_limit(&mut recs, idle_cases, limit_cases, &mut idx, only));
     phase!("ck cases", recs => run_ck_cases(&mut recs, ck_cases, &mut idx, only));
     phase!("pad cases", recs => run_pad_cases(&mut recs, pad_cases, &mut idx, only));
